@@ -530,3 +530,47 @@ package leveldb
 //@     assert [C08:journal-write-always-followed-by-seq-publication] calls("(*DB).addSeq") - old(calls("(*DB).addSeq")) == calls("(*DB).writeJournal") - old(calls("(*DB).writeJournal"))
 //@   at before call (*Batch).putMem#1
 //@     assert [C08:failed-journal-write-is-not-applied] calls("(*DB).writeJournal") == old(calls("(*DB).writeJournal")) + 1
+
+// ---------------------------------------------------------------------------
+// LSM structure (C06, C01, C03) with keys abstracted by type (DESIGN.md 3.1): []byte values are user keys
+// known only through the configured comparer (kcmp), internalKey values are (user key, packed number).
+
+//@ spec func kafter(t ref, k key) bool = !isnil(k) && kcmp(k, ukeyof(t.imax)) > 0
+//@ spec func kbefore(t ref, k key) bool = !isnil(k) && kcmp(k, ukeyof(t.imin)) < 0
+//@ spec func ovl(t ref, umin key, umax key) bool = !kafter(t, umin) && !kbefore(t, umax)
+// files of a level below the top: non-nil, each min <= max, sorted and pairwise disjoint in user-key order
+//@ spec func sortedDisjoint(tf ref) bool = (forall i int :: 0 <= i && i < len(tf) ==> (tf[i] != nil && !isnil(tf[i].imin) && !isnil(tf[i].imax) && kcmp(ukeyof(tf[i].imin), ukeyof(tf[i].imax)) <= 0)) && (forall i, j int :: 0 <= i && i < j && j < len(tf) ==> kcmp(ukeyof(tf[i].imax), ukeyof(tf[j].imin)) < 0)
+
+//@ func (*tFile).after
+//@   props C06 C01
+//@   abstract keys
+//@   ensures result == kafter(t, ukey)
+//@ func (*tFile).before
+//@   props C06 C01
+//@   abstract keys
+//@   ensures result == kbefore(t, ukey)
+//@ func (*tFile).overlaps
+//@   props C06 C01
+//@   abstract keys
+//@   ensures result == ovl(t, umin, umax)
+
+//@ func (tFiles).searchMinUkey
+//@   props C06 C01
+//@   abstract keys
+//@   requires sortedDisjoint(tf)
+//@   ensures [partition-point] 0 <= result && result <= len(tf) && (forall j int :: 0 <= j && j < result ==> kcmp(ukeyof(tf[j].imin), umin) <= 0) && (forall j int :: result <= j && j < len(tf) ==> kcmp(ukeyof(tf[j].imin), umin) > 0)
+
+//@ func (tFiles).searchMaxUkey
+//@   props C06 C01
+//@   abstract keys
+//@   requires sortedDisjoint(tf)
+//@   ensures [partition-point] 0 <= result && result <= len(tf) && (forall j int :: 0 <= j && j < result ==> kcmp(ukeyof(tf[j].imax), umax) <= 0) && (forall j int :: result <= j && j < len(tf) ==> kcmp(ukeyof(tf[j].imax), umax) > 0)
+
+// Overlap search in a sorted, disjoint level: the result is exactly the files that overlap [umin, umax] in the
+// order of the CONFIGURED comparer.
+//@ func (tFiles).getOverlaps
+//@   props C06 C01
+//@   abstract keys
+//@   requires !overlapped ==> sortedDisjoint(tf)
+//@   guarantees [C01,C06:overlap-search-exact] (!overlapped && len(tf) > 0) ==> (0 <= begin && end <= len(tf) && forall i int :: 0 <= i && i < len(tf) ==> (ovl(tf[i], umin, umax) <==> (begin <= i && i < end)))
+//@   guarantees [C01,C06:result-is-that-range] (!overlapped && len(tf) > 0) ==> (begin < end ==> len(result) == end - begin && forall j int :: 0 <= j && j < end - begin ==> result[j] == tf[begin + j])
